@@ -365,12 +365,12 @@ class StmtMixin:
             ghost2 = dict(ghost)
             if is_for:
                 ghost2["_i"] = Val(TInt, i + 1)
+            self.probe("loop#%d-body-reachable" % lid, s)      # before the step obligations (they are assumed once stated)
             self.loop_head.append((dict(h.heap), dict(h.env)))
             try:
                 self.check_invs(kind, lid, spec, s, ghost2, node, "step")
             finally:
                 self.loop_head.pop()
-            self.probe("loop#%d-body-reachable" % lid, s)
             s.path.pop()
             # 4. continuation: exit (guard false) or break/return from the step
             abrupt = zor(s.brk, s.ret)
@@ -417,8 +417,8 @@ class StmtMixin:
             self.exec_block(node.body, s)
             s.cont = False
             ghost2 = {"_visited": Val(TSet(ety), z3.Store(vis, x.z, True)), "_set": it}
-            self.check_invs("for", lid, spec, s, ghost2, node, "step")
             self.probe("loop#%d-body-reachable" % lid, s)
+            self.check_invs("for", lid, spec, s, ghost2, node, "step")
             s.path.pop()
             abrupt = zor(s.brk, s.ret)
             done = z3.ForAll([q], z3.Implies(z3.Select(S, q), z3.Select(vis, q)))
